@@ -536,6 +536,7 @@ class Engine:
     def operand(self, st, fr, op):
         k = op[0]
         if k == "const":
+            self._const_fn = fr.fn.name
             return self.const(st, op[1])
         cell, path = self.resolve(st, fr, op[1])
         v = self.read(st, cell, path, None)
@@ -579,6 +580,12 @@ class Engine:
                 cand = "::".join(segs[i:])
                 if cand in self.funcs:
                     return self.eval_const_item(st, self.funcs[cand])
+            # trait impls: the use site spells the impl (`m::<impl From<&A> for B>::from::promoted[0]`), the dump names it by its
+            # source span (`m::<impl at src/x.rs:1:1: 2:2>::from::promoted[0]`): a promoted belongs to the function that uses it
+            mp = re.search(r"::(promoted\[\d+\])$", t)
+            cur = getattr(self, "_const_fn", None)
+            if mp and cur and (cur + "::" + mp.group(1)) in self.funcs:
+                return self.eval_const_item(st, self.funcs[cur + "::" + mp.group(1)])
             raise EngineAbort("promoted constant %r not found in the MIR dump" % t)
         m = re.match(r"^'(.*)'$", t)
         if m:
